@@ -1017,7 +1017,7 @@ func runC16Endorse(c *Ctx, fs *c16FS) {
 			}
 		}
 	}
-	// nil variable reader with a variable locator (the code dereferences it)
+	// nil variable reader with a variable locator (refused with ErrLocateVariableReaderNil since the Locate repair)
 	for _, force := range []bool{false, true} {
 		run.run(c16Case{log: build("absent", "ok", "absent", "absent", false), mfr: google, quote: c16QuoteSpec{"sevraw", c16Blob}, prov: "nil", getter: "ok", force: force, reader: false}, m0, p0)
 	}
